@@ -32,7 +32,7 @@ var c06Groups = [][]string{{"bool", "b", "é"}, {"str", "s", "string"}, {"inc", 
 // long spellings of every name and alias, the short spelling (one dash, which means the same in all three modes for a
 // one-letter name without attached text) of some one-letter aliases including a multibyte one, the help option and its aliases
 var c06Alpha = []string{"--bool", "--b", "--str", "--s", "--string", "--int", "--inc", "--i2", "--list", "--l", "--opt", "--o", "--sc", "--nb", "--n", "v", "5", "p", "--zz", "c", "w", "--str=w",
-	"-b", "-é", "-s", "-o", "--help", "-?", "--h", "-ä", "--pre=x", "--defs=Key=v", "--D=k=w", "--nums", "-9", "--9"}
+	"-b", "-é", "-s", "-o", "--help", "-?", "--h", "-ä", "--pre=x", "--defs=Key=v", "--D=k=w", "--nums", "-9", "--9", "--st", "--str=a,b"}
 
 // c06Key returns the option key a token spells (long form, or short form of a one-letter key) and whether it is such a token.
 func c06Key(t string) (string, bool) {
@@ -128,8 +128,8 @@ func init() {
 	parserJudges["C06"] = judgeC06
 	register(&Check{
 		ID:        "C06",
-		QuickSecs: 120, ThoroSecs: 1200,
-		Rule: "input-space exploration: every argv of length <= L-1 over 36 tokens and of length L over the first 22 of them (every name and alias of 8 options of 6 kinds, half declared through *Var, one bound to an environment variable, one marked SetCalled, one with a multibyte one-letter alias; short spellings of one-letter aliases; the help option of HelpCommand and its aliases; values, positional, unknown option, command, UnsetOptions wrapper command) x 3 modes x environment {unset, valid, text that is not valid for the bound bool}; " +
+		QuickSecs: 300, ThoroSecs: 1200,
+		Rule: "input-space exploration: every argv of length <= L-1 over 38 tokens and of length L over the first 22 of them (every name and alias of 8 options of 6 kinds, half declared through *Var, one bound to an environment variable, one marked SetCalled, one with a multibyte one-letter alias; short spellings of one-letter aliases; the help option of HelpCommand and its aliases; values, positional, unknown option, command, UnsetOptions wrapper command) x 3 modes x environment {unset, valid, text that is not valid for the bound bool}; " +
 			"absolute: values (pointer, *Var target and Value() agree), Called, CalledAs compared with the reference model, untouched options keep defaults; metamorphic: replacing any occurrence of a name by any other alias of the same option changes nothing but CalledAs; " +
 			"distinct_nontrivial = distinct in-domain cases",
 		Assume: []string{"argv longer than L and other option sets are not covered"},
@@ -228,14 +228,14 @@ func init() {
 	}
 	register(&Check{
 		ID:        "C12",
-		QuickSecs: 60, ThoroSecs: 300,
-		Rule: "complete product: 7 option kinds (bool, string, int, float64 and the optional-value forms) x 2-3 defaults x *Var or pointer form x 29 environment texts (unset, empty, valid, invalid, mixed case booleans, padded, equal to default, equal to the command-line value) x 9 command-line forms (absent, --n=v, --n v, -n v, bare --n, twice, inside a command, before an UnsetOptions wrapper command) x 3 modes x {option declared at the root, option declared on a command, variable set after New() but before the declaration}; " +
+		QuickSecs: 300, ThoroSecs: 300,
+		Rule: "complete product: 7 option kinds (bool, string, int, float64 and the optional-value forms) x 2-3 defaults x *Var or pointer form x 32 environment texts (unset, empty, valid, invalid, mixed case booleans, padded, equal to default, equal to the command-line value) x 9 command-line forms (absent, --n=v, --n v, -n v, bare --n, twice, inside a command, before an UnsetOptions wrapper command) x 3 modes x {option declared at the root, option declared on a command, variable set after New() but before the declaration}; " +
 			"value, Called and CalledAs compared with the three-way precedence rule of the reference model, and again after a second Parse of an empty command line on the same object (nothing may change); distinct_nontrivial = distinct in-domain cases",
 		Assume: []string{"other environment texts are not covered; invalid numeric environment text leaves Called unspecified (zone U11) and only the value is compared"},
 		Run: func(c *RunCtx) {
 			res := c.Res
 			envs := []string{"\x00unset", "", "true", "false", "TRUE", "False", "tRuE", "1", "0", " 1", "1.5", "abc", "42", "-3", "1e3", "yes", "D", "cli", "7",
-				"010", "08", "0x1f", "1_000", "0b101", "-017", "+5", "5\n", "\ttrue", " "} // zero-padded / prefixed numerals, padded texts, blanks only
+				"010", "08", "0x1f", "1_000", "0b101", "-017", "+5", "5\n", "\ttrue", " ", "1,5", "a,b", "true,false"} // zero-padded / prefixed numerals, padded texts, blanks only
 			type kd struct {
 				k    ph.Kind
 				defs []ph.OptDef
